@@ -1,4 +1,5 @@
 import Fzf.Lemmas.Tokenizer
+import Fzf.Lemmas.Transform
 /-
 C10 — field expressions select exactly the documented fields.
 Property theorems only.
@@ -39,6 +40,26 @@ theorem C10_offsets_awk (s : Str) (k : Nat) (hk : k < (awkTokenizer s).1.length)
   simp only [tokenize]
   rw [C10_offsets _ _ _ hk]
   simp [awkTokenizer]
+
+/-- **Field index expressions select exactly the documented fields.** For every list of fields and
+    every documented expression — `N`, `A..B`, `A..`, `..B`, `..`, with bounds of any sign and
+    magnitude (negative bounds count from the end) — `Transform` yields the concatenation of the
+    fields the expression denotes, in order; nothing when the range is empty or lies outside the
+    line. `rangeOf` is the (normalised) `Range` that `ParseRange` builds for the expression. -/
+theorem C10_transform_selects (tokens : List Token) (ex : Spec.Expr) (hwf : WFExpr ex) :
+    (transform tokens [rangeOf ex]).map (·.text) =
+      [((Spec.select tokens.length ex).map (fieldText tokens)).flatten] :=
+  transform_selects tokens ex hwf
+
+/-- The normalisations of `newRange` (`1..k` = `..k`, `k..-1` = `k..`, `-1` alone) are
+    meaning-preserving: they are instances of the theorem above. The documented forms are parsed
+    into these expressions (kernel-evaluated instances). -/
+example : parseRange [49, 46, 46, 51] = some (rangeOf (.range (some 1) (some 3))) := by decide     -- "1..3"
+example : parseRange [46, 46, 45, 50] = some (rangeOf (.range none (some (-2)))) := by decide      -- "..-2"
+example : parseRange [45, 49] = some (rangeOf (.single (-1))) := by decide                          -- "-1"
+example : parseRange [50, 46, 46] = some (rangeOf (.range (some 2) none)) := by decide              -- "2.."
+example : parseRange [48] = none ∧ parseRange [45, 50, 46, 46, 51] = none := by decide              -- "0", "-2..3"
+example : (transform [⟨[97, 32], 0⟩, ⟨[98, 32], 2⟩, ⟨[99], 4⟩] [rangeOf (.range (some 2) none)]).map (·.text) = [[98, 32, 99]] := by decide
 
 /- Non-vacuity. -/
 example : tokenize [32, 97, 32, 32, 98] .awk = [⟨[97, 32, 32], 1⟩, ⟨[98], 4⟩] := by decide
